@@ -275,7 +275,8 @@ class SyncC02(SyncSuite):
             if moved or set(ino1) != set(ino2):
                 notes.append("re-sync of an unchanged source replaced inodes / changed the path set: %s" % moved[:3])
         else:
-            want = sum(1 for e in impl["view"] if e["mode"] & gen_type_mask() == 0 and not e.get("ln"))
+            # every regular file that is announced without link name (= what the model expects the first run to request as well)
+            want = len(model.get("reqs", []))
             if ag["reqs"] != want:
                 notes.append("with differencing disabled %d of %d regular files were re-requested" % (ag["reqs"], want))
         if notes:
@@ -523,6 +524,8 @@ class FollowSend(SendFilter):
                 "opt": {"notify": True, "cap": rng.choice([0, 4, 32]), "seed": rng.randrange(1 << 30)}}
 
     def judge(self, op, impl, model):
+        if isinstance(impl, dict) and "verif-timeout" in str(impl.get("err", "")):
+            return Verdict(False, False, "C18: resolving the follow paths did not terminate: %s" % impl["err"])
         v = super().judge(op, impl, model)
         if v.spec_ok is not False and model.get("follow") is False:
             return Verdict(v.agree, False, "C18: %s; %s" % (model.get("follow_why"), v.note))
